@@ -239,6 +239,7 @@ PROPERTY_VIEWS = (
 )
 METHOD_VIEWS = ("get_market_balance",)
 TOKEN_VIEWS = ("get_supply", "get_borrow", "get_max_borrow_amount", "get_max_withdraw_amount", "get_max_repay_amount")
+SIDE_VIEWS = ("formatted_str",)  # read-only helpers whose own value is not judged: they must leave the views alone
 ALL_VIEWS = PROPERTY_VIEWS + METHOD_VIEWS + TOKEN_VIEWS
 
 
@@ -250,6 +251,9 @@ def read_view(m, view, token=None):
         return getattr(m, view)()
     if view in TOKEN_VIEWS:
         return getattr(m, view)(token)
+    if view in SIDE_VIEWS:
+        getattr(m, view)()
+        return None
     raise HarnessError(f"unknown aave view {view}")
 
 
